@@ -223,4 +223,47 @@ decreasing_by
   · have h3 := skipComment_length r
     simp [st] at h1; omega
 
+
+/-- Iterates `Advance` the way parser.Read does (IsSpace is reset after every token) until it
+answers false. Returns (tokens, reached end-of-stream within the fuel, final state). -/
+def lexAll : Nat → LState → List LState × Bool × LState
+  | 0, st => ([], false, st)
+  | fuel + 1, st =>
+    match advance st with
+    | (false, st') => ([], true, st')
+    | (true, st') =>
+      let r := lexAll fuel { st' with isSpace := false }
+      (st' :: r.1, r.2.1, r.2.2)
+
+/-- reader.New + repeated Advance on a whole input (NUL runes never reach the lexer: the reader
+skips them, see `Reader.read_spec`). -/
+def tokens (input : List Rune) : List LState × Bool × LState :=
+  lexAll (input.length + 1) { pending := input.filter (· != 0) }
+
+/-- What `parser.Read` does with the lexer's token: the type assertions
+`Value().(int64|float64|string|Identifier)` must match and the token must have a case. -/
+inductive ReadKind where
+  | int | float | str | nil | single | ident | eos
+  | readError            -- `default: return nil, errors.New("read error")`
+  | assertPanic          -- a failed type assertion (Go runtime panic)
+  deriving Repr, DecidableEq
+
+def readKind' (tok : Int) (val : Val) : ReadKind :=
+  if tok == TOK_INT then (if val == .int then .int else .assertPanic)
+  else if tok == TOK_FLOAT then (if val == .float then .float else .assertPanic)
+  else if tok == TOK_STRING then (match val with | .str _ => .str | _ => .assertPanic)
+  else if tok == TOK_NIL then .nil
+  else if tok == TOK_UNKNOWN then (match val with | .ident _ => .ident | _ => .assertPanic)
+  else if tok == Gen.Tok.EOS then .eos
+  else if Gen.readCases.flatten.contains tok then .single
+  else .readError
+
+def readKind (s : LState) : ReadKind := readKind' s.tok s.val
+
+def ReadKind.ok : ReadKind → Bool
+  | .readError => false
+  | .assertPanic => false
+  | .eos => false
+  | _ => true
+
 end RubyTi.Lexer
